@@ -280,6 +280,7 @@ def cases(draw, avoid: frozenset = frozenset(), on_excluded=None, max_mods: int 
             # wildcard imports only where the unpatched loader expands them in a correct order (plain modules)
             avoid=frozenset(G.KNOWN_STEERING),
             wild_plain_only=True,
+            strict_taint=True,
             deco_defs=True,
         )
     )
